@@ -172,7 +172,10 @@ class TopLevelVisitor(ast.NodeVisitor):
         Returns:
             ast.Module:
         """
-        self.sourcelines = self.source.splitlines()
+        # The lines of the file as the interpreter numbers them: str.splitlines
+        # would also break at form feeds and other separators that are
+        # ordinary characters inside a line of Python source.
+        self.sourcelines = re.split('\r\n|\r|\n', self.source)
         source = self.source
         if source.startswith('\ufeff'):
             # a decoded byte-order mark is not part of the program text
